@@ -295,6 +295,9 @@ type CmpOpts struct {
 	SkipNoMatch        bool   // ignore "no match found" errors on both sides (C12 covers them)
 	MaxExpr            uint64 // budget the implementation ran with
 	IgnoreEncodingErrs bool
+	// FlatVal compares the flat rendering of the value (parsers built with -optimize-grammar may
+	// regroup action-less structure; the concatenated text and what actions made must not change)
+	FlatVal bool
 }
 
 // Compare returns the differences between the reference expectation and
@@ -336,8 +339,11 @@ func Compare(ref *peg.Result, obs *rtapi.Obs, pt *peg.PosTable, filename string,
 	if obs.Panic != "" {
 		return []string{"unexpected panic escaped Parse: " + obs.Panic}, false
 	}
-	if !co.SkipVal && obs.Val != ref.Val {
+	if !co.SkipVal && !co.FlatVal && obs.Val != ref.Val {
 		diffs = append(diffs, fmt.Sprintf("value: want %s got %s", ref.Val, obs.Val))
+	}
+	if !co.SkipVal && co.FlatVal && obs.Flat != ref.Flat {
+		diffs = append(diffs, fmt.Sprintf("flat value: want %q got %q", ref.Flat, obs.Flat))
 	}
 	if !co.SkipErrs {
 		var want, got []string
